@@ -44,6 +44,10 @@ def histories(strict=False, guaranteed_bias=False, max_ticks=40):
         "on_connect": st.lists(st.tuples(st.sampled_from([0, 9, 200, 1400]), st.sampled_from([0, -1, -1])).map(list), max_size=2),
         # every n-th callback raises after recording its result (0 = none)
         "cb_raises_every": st.sampled_from([0, 0, 2, 3]),
+        # configured message timeouts: server (ServerContext.setMessageTimeout before start) and client
+        # (UdpClient.setMessageTimeout before connect() / while connecting / once connected)
+        "s_msg_timeout": st.sampled_from([None, None, 0.4, 2.5]),
+        "c_msg_timeout": st.one_of(st.none(), st.tuples(st.sampled_from([0.4, 2.5]), st.sampled_from(["before", "connecting", "connected"])).map(list)),
     })
 
 
@@ -68,7 +72,17 @@ def run(ctx, c, oracle, per_step=None, link_setup=None, payload_fn=None):
     link_spec["delay"] = link_spec.get("delay", 0.005) + rtt_extra
     link = scen.Link(link_spec)
     f = Facts()
-    with W.World(seed=c["seed"], flavour=c["flavour"], mtu=c["mtu"]) as w:
+    s_mt = c.get("s_msg_timeout")
+    c_mt = c.get("c_msg_timeout")
+    if c["strict"]:
+        # the strict sub-domain's bound on the age of a reassembly context assumes retransmission within about a second
+        if s_mt is not None and s_mt > 1.0:
+            s_mt = None
+        if c_mt and c_mt[0] > 1.0:
+            c_mt = None
+    f.timeout_cfg = {"s": s_mt if s_mt is not None else 1.0, "c": c_mt[0] if c_mt else 1.0}
+    with W.World(seed=c["seed"], flavour=c["flavour"], mtu=c["mtu"],
+                 configure=(lambda ctxt: ctxt.setMessageTimeout(s_mt)) if s_mt is not None else None) as w:
         f.w = w
         f.recs = []
         ch = w.add_client()
@@ -81,10 +95,16 @@ def run(ctx, c, oracle, per_step=None, link_setup=None, payload_fn=None):
                     rec0.update(n=n0, uid=990000 + k, guaranteed=(r0 == -1),
                                 frag_id=int(ch.conn.seq_fragment) if (n0 > Packet.MAX_PAYLOAD_SIZE and "raised" not in rec0) else None)
                     pre.append(rec0)
+        if c_mt and c_mt[1] == "before":
+            ch.udp.setMessageTimeout(c_mt[0])
         ch.udp.connect(w.server_addr, on_connected)
         ch._note_status()
+        if c_mt and c_mt[1] == "connecting":
+            ch.udp.setMessageTimeout(c_mt[0])
         if not w.run(3.0, 0.017, until=lambda: ch.connected() and ch.laddr in w.ctxt.connections):
             raise W.WorldError("honest handshake did not complete")
+        if c_mt and c_mt[1] == "connected":
+            ch.udp.setMessageTimeout(c_mt[0])
         f.ch = ch
         sconn = w.server_conn(ch.laddr)
         f.watch = {"c": W.ConnWatch(ch.conn, w.clock), "s": W.ConnWatch(sconn, w.clock)}
@@ -212,7 +232,7 @@ def run(ctx, c, oracle, per_step=None, link_setup=None, payload_fn=None):
         f.t_heal = w.clock.t
         link.healed()
         # heal phase: until every retransmittable / callback-carrying send is resolved, or the cap
-        timeout = max(ch.conn.outgoing_timeout, sconn.outgoing_timeout)
+        timeout = max(ch.conn.outgoing_timeout, sconn.outgoing_timeout, f.timeout_cfg["c"], f.timeout_cfg["s"])
         per_tick = max(200, P // 2)
         cap = 3 * timeout + 4 * (total_bytes / per_tick) * c["dt"] + 10.0
         f.cap = cap
